@@ -32,3 +32,5 @@ for prop in "$@"; do
   if [ $rc -ne 0 ] && [ $rc -ne 1 ] && [ $rc -ne 3 ]; then tail -30 $W/run.log; fi
   echo "RESULT $prop rc=$rc"
 done
+# MUTANT_KEEP=<dir>: keep the replay files of this run there
+if [ -n "${MUTANT_KEEP:-}" ]; then mkdir -p "$MUTANT_KEEP"; cp -r $W/root/out/replays/. "$MUTANT_KEEP"/ 2>/dev/null; fi
